@@ -31,4 +31,42 @@ def c13(tier, seed):
         expect_marks=("9003",))
 
 
-PROPS = {"C13": c13}
+BOUNDS = {"collection_sizes": "1..3 (quick) / 1..4 (thorough)", "nesting_depth": 2, "universe_locks": "6 shared + up to 4 owned",
+          "arrangements": "every injective assignment of member slots to universe locks (symbolic indices)",
+          "environment": "q: symbolic quiescent pre-state; a: adversarial - every lock T0 does not hold may be held by someone else at each raw operation, at most `budget` times (2 quick / 3 thorough), then free",
+          "api_flavours": "lock/try_lock/read/try_read/scoped_*/scoped_try_* with owned and lent key, release by drop and by unlock"}
+
+
+def c04(tier, seed):
+    files, names = harness_acq(tier, envs=("q", "a"))
+    return checks.run_mirsym_property(
+        "C04", tier, seed, files,
+        codes("M_NOT_ALL_HELD", "M_HELD_AFTER_ERR", "M_BLOCKING_IN_TRY", "M_CLOSURE_COUNT", "M_NOT_HELD_IN_SECTION", "M_DUP_VERDICT"),
+        assumptions=sys_assumptions, bounds=BOUNDS)
+
+
+def c05(tier, seed):
+    files, names = harness_acq(tier, envs=("a",))
+    return checks.run_mirsym_property(
+        "C05", tier, seed, files, codes("M_BAD_RELEASE", "M_HELD_AFTER_ERR", "M_SELF_WAIT"),
+        assumptions=sys_assumptions, bounds=BOUNDS)
+
+
+def c03(tier, seed):
+    files, names = harness_acq(tier, envs=("a",))
+    return checks.run_mirsym_property(
+        "C03", tier, seed, files, codes("M_HELD_AT_API_BEGIN", "M_HELD_AT_KEY_BACK", "M_SELF_WAIT", "M_KEY_MODEL"),
+        assumptions=sys_assumptions, bounds=BOUNDS)
+
+
+def c09(tier, seed):
+    files, names = harness_acq(tier, envs=("a",), kinds=lambda sh: sh.kind == "retry" or "rt" in sh.name, only_blocking=True,
+                               budget=3 if tier == "quick" else 4)
+    return checks.run_mirsym_property(
+        "C09", tier, seed, files, codes("M_HOLD_AND_WAIT", "M_NOT_ALL_HELD", "M_NOT_COMPLETED"),
+        outcome_kinds=("abort", "unwound", "memory-error", "budget"),
+        assumptions=sys_assumptions + ["eventually-quiet environment: after at most `budget` interference events every contended lock is released and stays free"],
+        bounds=dict(BOUNDS, retry_rounds="bounded by the interference budget 3 (quick) / 4 (thorough)"))
+
+
+PROPS = {"C13": c13, "C04": c04, "C05": c05, "C03": c03, "C09": c09}
